@@ -12,10 +12,10 @@ use crate::util::*;
 
 pub fn run() {
 	let cx = ctx();
-	cx.note("rule", json!("every game of the C04 history exploration (fill patterns make all fields of an event distinct, so joystick != cstick, x != y), every row index, every leaf: Frame::transpose_one and Game::frame on the finished game as read from .slp AND as loaded back from a .slpp archive (rows equal to its own columns and to the .slp rows; quick: all 784 versions and the cross-product replays, thorough: every history), and on the in-progress ParseState for every completed row after every event; plus all 784 versions with a 2-frame two-port game; plus the fixture replays; non-trivial = has an absence, rollback or item"));
+	cx.note("rule", json!("every game of the C04 history exploration (fill patterns make all fields of an event distinct, so joystick != cstick, x != y), every row index, every leaf: Frame::transpose_one and Game::frame on the finished game as read from .slp AND as loaded back from a .slpp archive (rows equal to its own columns and to the .slp rows; quick: all 784 versions and the cross-product replays, thorough: every history with at most one deviation, the BFS prefixes and the long games), and on the in-progress ParseState for every completed row after every event; plus all 784 versions with a 2-frame two-port game; plus the fixture replays; non-trivial = has an absence, rollback or item"));
 	cx.note("exhaustive", json!(true));
 	cx.note("assumptions", json!(["a row is 'completed' in the in-progress view when the reference walker has seen the event that closes it"]));
-	// the trip through .slpp is made for every history in the thorough tier; in the quick tier for all versions
+	// the trip through .slpp is made for every history with <= 1 deviation in the thorough tier; in the quick tier for all versions
 	// (below) and for the cross product of the optional dimensions
 	super::c04::run_histories(if cx.quick() { A_TRANSPOSE } else { A_TRANSPOSE | A_VIA_SLPP }, A_TRANSPOSE, true);
 	if cx.quick() {
